@@ -2,62 +2,29 @@ import ScrapliProps.C11Lemmas
 namespace Scrapli.Lifecycle
 variable {cfg : Cfg} {P : St → Prop}
 
-/-! ### __enter__ / __exit__ -/
-
-theorem runEnter_unfold (hc : cfg.code.enterP = enterP) (s : St) (tape : List Ev) :
-    (runEnter cfg s tape).st = (if (runOpen cfg s tape).ok then (runOpen cfg s tape).st
-                                else channelClose cfg (transportClose cfg (runOpen cfg s tape).st)) ∧
-    (runEnter cfg s tape).out = (if (runOpen cfg s tape).ok then .returns else .raises .connError) ∧
-    (runEnter cfg s tape).tape = (runOpen cfg s tape).tape := by
-  unfold runEnter
-  rw [hc]
-  unfold enterP
-  obtain ⟨p1, p2, p3⟩ := execProg_single (cfg := cfg) (execStmt1 cfg)
-    (.tryExceptRaise [⟨.always, .callOpen⟩] [⟨.always, .logCritical⟩, ⟨.always, .transportClose⟩, ⟨.always, .channelClose⟩]) s tape
-  rw [p1, p2, p3]
-  obtain ⟨b1, b2, b3⟩ := execList_single (cfg := cfg) (execStmt1 cfg) .callOpen s tape
-  have hcall : execStmt1 cfg .callOpen s tape = runOpen cfg s tape := rfl
-  rw [hcall] at b1 b2 b3
-  unfold execNode
-  simp only
-  by_cases hok : (runOpen cfg s tape).ok = true
-  · have hbok : (execList (execStmt1 cfg) cfg [⟨.always, .callOpen⟩] s tape).ok = true := by
-      rw [ok_iff, b2]; exact (ok_iff _).1 hok
-    simp only [hbok, hok, if_true]
-    exact ⟨b1, by rw [b2]; exact (ok_iff _).1 hok, b3⟩
-  · have hok' : (runOpen cfg s tape).ok = false := by simpa using hok
-    have hbok : (execList (execStmt1 cfg) cfg [⟨.always, .callOpen⟩] s tape).ok = false := by
-      rw [ok_false_iff, b2]; exact (ok_false_iff _).1 hok'
-    -- the handler: logger.critical, transport.close(), channel.close()
-    have hq := quiet1_logCritical (cfg := cfg) (execList (execStmt1 cfg) cfg [⟨.always, .callOpen⟩] s tape).st
-      (execList (execStmt1 cfg) cfg [⟨.always, .callOpen⟩] s tape).tape
-    obtain ⟨c1, c2, c3, _⟩ := execList_cons_go (cfg := cfg) (execStmt1 cfg) ⟨.always, .logCritical⟩
-      [⟨.always, .transportClose⟩, ⟨.always, .channelClose⟩] _ _ rfl ((ok_iff _).2 hq.2.2)
-    obtain ⟨d1, d2, d3⟩ := closeBoth_list (cfg := cfg) (execStmt1 cfg) (fun _ _ => rfl) (fun _ _ => rfl)
-      (execStmt1 cfg .logCritical (execList (execStmt1 cfg) cfg [⟨.always, .callOpen⟩] s tape).st
-        (execList (execStmt1 cfg) cfg [⟨.always, .callOpen⟩] s tape).tape).st
-      (execStmt1 cfg .logCritical (execList (execStmt1 cfg) cfg [⟨.always, .callOpen⟩] s tape).st
-        (execList (execStmt1 cfg) cfg [⟨.always, .callOpen⟩] s tape).tape).tape
-    have hhok : (execList (execStmt1 cfg) cfg [⟨.always, .logCritical⟩, ⟨.always, .transportClose⟩, ⟨.always, .channelClose⟩]
-        (execList (execStmt1 cfg) cfg [⟨.always, .callOpen⟩] s tape).st
-        (execList (execStmt1 cfg) cfg [⟨.always, .callOpen⟩] s tape).tape).ok = true := by
-      rw [ok_iff, c2]; exact (ok_iff _).1 d3
-    simp only [hbok, hok', hhok, if_true, Bool.false_eq_true, if_false]
-    refine ⟨?_, trivial, ?_⟩
-    · rw [c1, d1, hq.1, b1]
-    · rw [c3, d2, hq.2.1, b3]
-
-theorem runExit_unfold (hc : cfg.code.exitP = exitP) (s : St) (tape : List Ev) :
-    (runExit cfg s tape).st = (runClose cfg s tape).st ∧ (runExit cfg s tape).out = (runClose cfg s tape).out ∧
-    (runExit cfg s tape).tape = (runClose cfg s tape).tape := by
-  unfold runExit
-  rw [hc]
-  unfold exitP
-  obtain ⟨p1, p2, p3⟩ := execProg_single (cfg := cfg) (execStmt1 cfg) (.simple ⟨.always, .callClose⟩) s tape
-  rw [p1, p2, p3]
-  have hn : execNode (execStmt1 cfg) cfg (.simple ⟨.always, .callClose⟩) s tape = execList (execStmt1 cfg) cfg [⟨.always, .callClose⟩] s tape := by
-    unfold execNode; rfl
-  rw [hn]
-  exact execList_single (cfg := cfg) (execStmt1 cfg) .callClose s tape
+theorem execProg_append (f : Stmt → St → List Ev → R) (p q : Prog) : ∀ (s : St) (tape : List Ev),
+    execProg f cfg (p ++ q) s tape =
+      if (execProg f cfg p s tape).ok then
+        { execProg f cfg q (execProg f cfg p s tape).st (execProg f cfg p s tape).tape with
+          tr := (execProg f cfg p s tape).tr ++ (execProg f cfg q (execProg f cfg p s tape).st (execProg f cfg p s tape).tape).tr }
+      else execProg f cfg p s tape := by
+  induction p with
+  | nil =>
+    intro s tape
+    simp [execProg, R.ok]
+  | cons n rest ih =>
+    intro s tape
+    rw [List.cons_append, execProg, execProg]
+    by_cases hok : (execNode f cfg n s tape).ok = true
+    · simp only [hok, if_true]
+      rw [ih]
+      by_cases hok2 : (execProg f cfg rest (execNode f cfg n s tape).st (execNode f cfg n s tape).tape).ok = true
+      · simp [hok2, R.ok, List.append_assoc]
+        simp [R.ok] at hok2
+        simp [hok2]
+      · simp [hok2, R.ok]
+        simp [R.ok] at hok2
+        simp [hok2]
+    · simp [hok]
 
 end Scrapli.Lifecycle
